@@ -59,6 +59,7 @@ mutual
            | _ => true)
     | .obj _ f, b => !f.frozen && !b.flags.frozen
     | .union _ _, _ => false
+    | .callable _, _ => false
   termination_by structural a => a
   def zipOk : List Spec → List Spec → Bool
     | [], _ => true
@@ -267,6 +268,7 @@ theorem CompatOk_flags (a b : Spec) (h : CompatOk a b = true) :
     a.flags.frozen = false ∧ b.flags.frozen = false := by
   cases a with
   | union cands f => simp [CompatOk] at h
+  | callable f => simp [CompatOk] at h
   | any f =>
     simp only [CompatOk, Bool.and_eq_true, Bool.not_eq_true'] at h
     exact ⟨h.1.1, h.2⟩
@@ -422,6 +424,7 @@ mutual
               fields_sound env ht fs ofs hfo hfc hcf kvs hv.2⟩
     | obj c f => exact compat_obj env ht c f b hok hc v hv
     | union cands f => simp [CompatOk] at hok
+    | callable f => simp [CompatOk] at hok
   termination_by structural a
   theorem zip_sound (env : Env) (ht : SubTrans env) (es oes : List Spec) (hok : zipOk es oes = true)
       (hc : zipCompat env es oes = true) (hl : es.length = oes.length) (xs : List Val)
